@@ -1,11 +1,12 @@
 use crate::{
     context,
-    util::{Compact, TimeUntil},
+    util::{Compact, TimeUntil, MAX_TIMER_SPAN},
 };
 use fnv::FnvHashMap;
 use std::{
     collections::hash_map,
     task::{Context, Poll},
+    time::Duration,
 };
 use tokio::sync::oneshot;
 use tokio_util::time::delay_queue::{self, DelayQueue};
@@ -34,6 +35,8 @@ struct RequestData<Res> {
     response_completion: oneshot::Sender<Res>,
     /// The key to remove the timer for the request's deadline.
     deadline_key: delay_queue::Key,
+    /// How much of the time until the deadline is not yet covered by the armed timer.
+    beyond_timer: Duration,
 }
 
 /// An error returned when an attempt is made to insert a request with an ID that is already in
@@ -69,12 +72,14 @@ impl<Res> InFlightRequests<Res> {
         match self.request_data.entry(request_id) {
             hash_map::Entry::Vacant(vacant) => {
                 let timeout = ctx.deadline.time_until();
-                let deadline_key = self.deadlines.insert(request_id, timeout);
+                let timer_span = timeout.min(MAX_TIMER_SPAN);
+                let deadline_key = self.deadlines.insert(request_id, timer_span);
                 vacant.insert(RequestData {
                     ctx,
                     span,
                     response_completion,
                     deadline_key,
+                    beyond_timer: timeout - timer_span,
                 });
                 Ok(())
             }
@@ -131,6 +136,15 @@ impl<Res> InFlightRequests<Res> {
     ) -> Poll<Option<u64>> {
         self.deadlines.poll_expired(cx).map(|expired| {
             let request_id = expired?.into_inner();
+            if let Some(request_data) = self.request_data.get_mut(&request_id) {
+                if !request_data.beyond_timer.is_zero() {
+                    // The deadline was further away than a single timer can span.
+                    let timer_span = request_data.beyond_timer.min(MAX_TIMER_SPAN);
+                    request_data.beyond_timer -= timer_span;
+                    request_data.deadline_key = self.deadlines.insert(request_id, timer_span);
+                    return Some(request_id);
+                }
+            }
             if let Some(request_data) = self.request_data.remove(&request_id) {
                 let _entered = request_data.span.enter();
                 tracing::error!("DeadlineExceeded");
